@@ -659,7 +659,33 @@ def check_type_cutoffs(run, it, fq, rc, snap, i, loc):
     if len(fills) != 1:
         # direct form r_cut[type_i - 1][type - 1]
         alt = ("sub", ("sub", ("sym", "r_cut"), rc[2]), ("bin", "-", ptype_cur, C(1)))
-        run.ob("R-IDX", fq, "typed:table", None, "per-particle cutoff table recognised", f"{len(fills)} stores into {show(table)[:50]}", loc=loc)
+        # whole-array form (e.g. fancy indexing of r_cut by the type ids): evaluated on a 3 x 3 table of distinct exact symbols
+        # and five particles of types (1, 2, 2, 3, 1); entry [a, j] must be the symbol r_cut[a, type_j - 1]
+        okt, det, wit = None, f"{len(fills)} stores into {show(table)[:50]}", None
+        if not fills:
+            try:
+                import numpy as np
+                from ..concrete import ev as cev, symbolic_array
+                from ..vg import strip_alloc
+                R = symbolic_array((3, 3), "rc", complex_=False)
+                types = np.array([1, 2, 2, 3, 1])
+                env = {("sym", "r_cut"): R, ptype0: types, ptype_cur: types, ("sym", "nparticle_type"): 3,
+                       ("attr", ("sub", ("attr", SN, "snapshots"), C(0)), "nparticle"): 5}
+                got = np.asarray(cev(strip_alloc(table), env), dtype=object)
+                det = f"whole-array form {show(strip_alloc(table))[:90]}"
+                if got.shape != (3, 5):
+                    okt, wit = False, f"3 types, 5 particles: table has shape {got.shape}, rows must be centre types and columns particles"
+                else:
+                    bad = [(a, j) for a in range(3) for j in range(5) if got[a, j] != R[a, types[j] - 1]]
+                    okt = not bad
+                    if bad:
+                        a, j = bad[0]
+                        wit = (f"types {types.tolist()}: entry [centre type {a + 1}, particle {j} of type {types[j]}] is r_cut[{str(got[a, j])[3:]}] instead of r_cut[{a}{types[j] - 1}] "
+                               f"- wrong cutoff for every pair whose two cutoffs differ (non-symmetric table)")
+            except Exception as e:  # noqa
+                det = f"whole-array form not evaluable: {type(e).__name__}: {str(e)[:80]}"
+        run.ob("R-IDX", fq, "typed:table", okt, "cutoffs[a, j] = r_cut[a, type_j - 1] for every type row a and particle j (whole-array form decided exactly on a symbolic 3 x 3 table)", det,
+               witness=wit, loc=loc, sound=True)
         return
     f = fills[0]
     tgt = f.data["target"][2]
